@@ -94,7 +94,7 @@ PROPS = {
         'sim': [('MC_sim.cfg', 100, 1500, 60), ('MC_sim_self.cfg', 30, 500, 60)],
         'title': 'Virtual view',
         'units': [('swap', 800, 10000), ('forcrash', 600, 8000), ('probe', 700, 12000), ('general', 500, 8000), ('nested', 1000, 15000), ('bfcontract', 300, 5000),
-                  ('selfnest', 500, 6000), ('regress', 0, 0)],
+                  ('selfnest', 500, 6000), ('foreign', 1500, 15000), ('regress', 0, 0)],
         'owned': {'AnswerMatches'},
         'nontrivial': lambda st, sc: st['q'] >= 10,
         'rule': 'every query kind on every universe path ("probe-all") at many points of random programs; '
